@@ -1,6 +1,7 @@
 package main
 
 import (
+	"regexp"
 	"fmt"
 	"go/types"
 	"sort"
@@ -250,12 +251,19 @@ func (s *state) sliceFacts(t types.Type, S []string, ls []leaf) {
 	}
 }
 
+// a term that selects directly from an entry-state heap symbol (generation @0)
+var entryHeapRead = regexp.MustCompile(`^\(select \(select \|[HE]_[^|]*@0\| `)
+
 func (s *state) leafFact(l leaf, x string) string {
 	m := s.u.m
 	switch {
 	case strings.HasSuffix(l.path, ".ref") || strings.HasSuffix(l.path, ".box"):
 		if _, ok := intLit(x); ok {
 			return ""
+		}
+		if s.u.nextRef > 0 && entryHeapRead.MatchString(x) && !strings.Contains(x, "(store ") {
+			// read straight from a heap as it was on entry: the object existed before this function ran
+			return fmt.Sprintf("(>= %s 0)", x)
 		}
 		if s.u.nextRef > 0 {
 			// a reference is either pre-existing (>= 0) or one of the objects allocated so far on this path
